@@ -126,6 +126,11 @@ func c02config(c *Check, seed int64, name string, opt EnvOpt, hs string) {
 				if !env.P.Alive() {
 					return
 				}
+				if c.NViol() > 40 {
+					// enough witnesses: every further violation costs a 30 s wait
+					c.Count("workload_cut_short_after_40_violations", 1)
+					return
+				}
 				cmd := singles[(i*workers+w)%len(singles)]
 				if rng.Intn(3) == 0 {
 					cmd = singles[rng.Intn(len(singles))]
@@ -298,6 +303,7 @@ func c02config(c *Check, seed int64, name string, opt EnvOpt, hs string) {
 		cl.Close()
 	}
 	c02slow(c, env, script, seed, name)
+	c02slowSmall(c, env, script, seed, name)
 	c.Count("race_reports_diagnostic_"+name, int64(env.P.RaceReports()))
 }
 
@@ -401,4 +407,73 @@ func minInt(a, b int) int {
 		return a
 	}
 	return b
+}
+
+
+// c02slowSmall: a non-reading client pipelines thousands of requests with small
+// replies in batches, so that after the socket has filled up the proxy keeps
+// appending several small replies per flush to a short outbound backlog.
+func c02slowSmall(c *Check, env *Env, script *Script, seed int64, name string) {
+	rng := rand.New(rand.NewSource(seed + 78))
+	cl, err := DialClient(env.P.Addr, "", 2048)
+	must(err, "dial slow reader")
+	defer cl.Close()
+	cl.PauseReading(true)
+	n := c.Pick(9000, 30000)
+	replies := make([][]byte, 0, n)
+	keys := make([]string, 0, n)
+	total := 0
+	var batch []byte
+	for i := 0; i < n; i++ {
+		tok := newToken("q")
+		payload := make([]byte, 600+rng.Intn(1400))
+		rng.Read(payload)
+		rep := BulkReply(payload)
+		script.Plan(tok).Act = func(r *BReq) Action { return Action{Reply: rep} }
+		replies = append(replies, rep)
+		keys = append(keys, tok)
+		total += len(rep)
+		batch = append(batch, Req("GET", tok)...)
+		if i%40 == 39 || i == n-1 {
+			if err := cl.Send(batch); err != nil {
+				infra("slow reader send: %v", err)
+			}
+			batch = batch[:0]
+			if i%400 == 399 {
+				env.Barrier()
+			}
+		}
+	}
+	env.Barrier()
+	time.Sleep(200 * time.Millisecond)
+	env.Barrier()
+	cl.PauseReading(false)
+	ok := cl.WaitReplies(n, 60*time.Second)
+	s := cl.Snapshot()
+	c.Eval(1)
+	c.Distinct(fmt.Sprintf("%s|slow-reader-small-replies|%d", name, n))
+	c.Count("slow_reader_backlog_bytes", int64(total))
+	wit := map[string]interface{}{"config": name, "requests": n, "backlog_bytes": total, "received_replies": len(s.Replies), "garbage": s.GarbErr, "episode": "slow reader, small replies in batches of 40"}
+	if !env.P.Alive() {
+		c.Violate(Violation{Class: "proxy-died", Shape: "slow-reader", Detail: env.P.PanicLine(), Witness: wit})
+		return
+	}
+	if !ok && s.GarbErr == "" {
+		c.Violate(Violation{Class: "slow-reader-incomplete", Shape: "slow-reader-small", Detail: fmt.Sprintf("slow reader got %d of %d replies (closed=%v)", len(s.Replies), n, s.Closed), Witness: wit})
+	}
+	if len(s.Replies) > n {
+		c.Violate(Violation{Class: "reply-bytes-altered", Shape: "slow-reader-small", Detail: fmt.Sprintf("slow reader got %d replies for %d requests (duplicated bytes)", len(s.Replies), n), Witness: wit})
+	}
+	for i := 0; i < len(s.Replies) && i < n; i++ {
+		if !bytes.Equal(s.Replies[i].Val.Raw, replies[i]) {
+			wit["position"] = i
+			c.Violate(Violation{Class: "reply-bytes-altered", Shape: "slow-reader-small", Detail: fmt.Sprintf("slow reader: reply %d differs at offset %d (duplicated / lost / reordered bytes in the backlog)", i, firstDiffB(s.Replies[i].Val.Raw, replies[i])), Witness: wit})
+			break
+		}
+		c.Count("reply_bytes_compared", int64(len(replies[i])))
+	}
+	if s.GarbErr != "" {
+		c.Violate(Violation{Class: "reply-bytes-altered", Shape: "slow-reader-small", Detail: "reply stream stopped parsing: " + s.GarbErr, Witness: wit})
+	}
+	script.Forget(keys...)
 }
